@@ -28,6 +28,24 @@ func TestVerifC11(t *testing.T) {
 	if !quick {
 		sels = append(sels, sel{vBundledRoot, "testpic_6s"}, sel{vBundledRoot, "WAVE/vectors/cfhd_sets/14.985_29.97_59.94/t1/2022-10-17"}, sel{vBundledRoot, "testpic_8s"})
 	}
+	// every MPD of an asset that advertises a PatchLocation must be patchable: the other bundled MPDs of testpic_2s
+	// (thumbnails, subtitles: AdaptationSets without ids in the VoD MPD)
+	if sh, _ := vh.Shard(); sh == 0 {
+		if a, err := vAsset(vBundledRoot, "testpic_2s"); err == nil {
+			if srv, err := vServer(vBundledRoot); err == nil {
+				for _, m := range []string{"Manifest_thumbs.mpd", "Manifest_imsc1.mpd"} {
+					if _, ok := a.MPDs[m]; !ok {
+						continue
+					}
+					for _, mode := range []string{"tltime", "tlnr"} {
+						c11MPD = m
+						c11Run(rep, srv, a, "testpic_2s", 10, mode, 0, 60, 0, true, false, 0)
+						c11MPD = ""
+					}
+				}
+			}
+		}
+	}
 	job := 0
 	for _, s := range sels {
 		a, err := vAsset(s.root, s.path)
@@ -78,6 +96,9 @@ func TestVerifC11(t *testing.T) {
 	}
 }
 
+// c11MPD, if set, is the MPD of the asset that c11Run walks (default: the first one that lists the reference track)
+var c11MPD string
+
 func c11Run(rep *vh.Report, srv *Server, a *vref.VAsset, asset string, ttl int, mode string, periods int, tsbd, start int64, quick bool, withStop bool, atoMS int64) {
 	v := a.Ref
 	var parts []string
@@ -101,6 +122,9 @@ func c11Run(rep *vh.Report, srv *Server, a *vref.VAsset, asset string, ttl int, 
 		}
 	}
 	mpdName := vMPDNameFor(a, v.ID)
+	if c11MPD != "" {
+		mpdName = c11MPD
+	}
 	ast := start * 1000
 	segMS := a.LoopMS / int64(len(v.Segs))
 	var stopMS int64
